@@ -60,7 +60,7 @@ struct Finding {
     kind: BlockKind,
 }
 
-fn check_block(prog: &Program, b: &Block, pl: &Placed, cfg: &Cfg, findings: &mut Vec<Finding>, stats: &mut CaseOut) {
+fn check_block(prog: &Program, b: &Block, pl: &Placed, cfg: &Cfg, cond_wrapped: &std::collections::HashSet<usize>, findings: &mut Vec<Finding>, stats: &mut CaseOut) {
     let unit = cfg.indent_unit_str();
     let (olead, ofirst) = pl.lead(b.opener);
     // anchor: the opener itself if it starts its line, otherwise the first candidate that does
@@ -85,7 +85,9 @@ fn check_block(prog: &Program, b: &Block, pl: &Placed, cfg: &Cfg, findings: &mut
     }
     // anonymous routine bodies with at most one statement are laid out as part of the
     // surrounding expression (kept inline when they fit); this also affects what is nested in them
-    let inline_anon = prog.blocks.iter().any(|a| a.kind == BlockKind::AnonBegin && a.items.len() <= 1 && a.opener <= b.opener && a.closer.is_some_and(|c| c >= b.opener));
+    // (a statement wrapped in a conditional directive is absent in the pass that does not take the
+    // branch, so a body counts as single-statement when at most one statement is unconditional)
+    let inline_anon = prog.blocks.iter().any(|a| a.kind == BlockKind::AnonBegin && a.items.iter().filter(|it| !cond_wrapped.contains(it)).count() <= 1 && a.opener <= b.opener && a.closer.is_some_and(|c| c >= b.opener));
     let Some(anchor) = anchor else {
         stats.count("blocks_unanchored");
         return;
@@ -210,9 +212,25 @@ impl Prop for C05 {
                     _ => None,
                 })
                 .min();
+            // statements / members that directly follow a conditional directive (wrapped by the layout)
+            let mut cond_wrapped: std::collections::HashSet<usize> = Default::default();
+            for (i, p) in lay.pieces.iter().enumerate() {
+                if let crate::gen::layout::PieceKind::Tok(t) = p.kind {
+                    let mut j = i;
+                    while j > 0 && matches!(lay.pieces[j - 1].kind, crate::gen::layout::PieceKind::LineComment | crate::gen::layout::PieceKind::BlockComment) {
+                        j -= 1;
+                    }
+                    if j > 0 && lay.pieces[j - 1].kind == crate::gen::layout::PieceKind::Directive {
+                        let d = lay.pieces[j - 1].text.trim_start_matches(['{', '(', '*']).trim_start_matches('$').to_ascii_lowercase();
+                        if d.starts_with("if") {
+                            cond_wrapped.insert(t);
+                        }
+                    }
+                }
+            }
             let mut findings = vec![];
             for b in &prog.blocks {
-                check_block(prog, b, &pl, &cfg, &mut findings, &mut out);
+                check_block(prog, b, &pl, &cfg, &cond_wrapped, &mut findings, &mut out);
             }
             let mut reported = 0;
             for f in findings {
